@@ -34,8 +34,8 @@ PID = "C06"
 DRIVER = Path(__file__).resolve().parent / "c06_impl.py"
 TARGETS = ["Sim/Case.vo", "Sim/ReinitProofs.vo", "Sim/ReproProofs.vo", "Streams/Stream.vo", "Streams/Seeds.vo", "Props/C06.vo"]
 KIND_OF_SID = ["tally", "persistent", "counter"]
-HIST_KINDS = ["never", "stepped", "bounded", "ended", "fault", "stop", "endrepl", "cleanup", "othermodel", "multi", "asap"]
-COMPONENTS = ["trace", "outs", "ntfs", "obs", "canc", "dlv", "draws"]
+HIST_KINDS = ["never", "stepped", "bounded", "ended", "fault", "stop", "endrepl", "cleanup", "othermodel", "multi", "asap", "fromend"]
+COMPONENTS = ["trace", "outs", "ntfs", "obs", "canc", "dlv", "slv", "draws"]
 
 
 # ----------------------------------------------------------------------------- running the implementation
@@ -120,6 +120,17 @@ def gen_model(rng, clock, *, stochastic, with_stats, fault=False, stop=False, in
                         body[i] = ["obsf", a[1], rng.choice("ab")]
         # make sure something is drawn
         prog[0].append(["sched", ["reld", "a", 0, 5, u], 5, 1])
+        if rng.random() < 0.35:
+            # components built in construct_model that listen to the simulator and react by drawing / scheduling
+            hs2 = list(range(1, len(prog)))
+            model["simlst"] = []
+            for _ in range(rng.randint(1, 3)):
+                ntf = rng.choice(["warmup", "warmup", "time", "start", "startrepl"])
+                body = [rng.choice([["obsd", rng.choice([0, 2]), rng.choice("ab"), -2, 9],
+                                    ["sched", ["reld", rng.choice("ab"), 0, 3, u], 5, rng.choice(hs2)]])]
+                if ntf == "time":
+                    body = [["obsd", rng.choice([0, 2]), rng.choice("ab"), -2, 9]]     # (a handler per time change would not end)
+                model["simlst"].append([ntf, body])
     return model
 
 
@@ -145,6 +156,34 @@ def run_cmds_for(rng, clock, init, *, allow_end=True):
     return out
 
 
+def gen_fromend_case(rng, clock, i):
+    """what an experiment driver does: the next replication is initialised (and started) from inside the
+    END_REPLICATION notification of the previous one, on its run thread; the new replication is long, so that it is
+    still running when the notification returns"""
+    u = S.unit_of(clock)
+    with_stats = clock not in ("dur", "durmin") or True
+    body = [["sched", ["rel", u], 5, 1]]
+    if rng.random() < 0.7:
+        body.append(["obs", 0, rng.randint(-3, 9)])
+    if rng.random() < 0.4:
+        body.append(["sched", ["now"], rng.choice(S.PRIOS), 2])
+    model = {"prog": [[["sched", ["rel", u * rng.randint(0, 2)], 5, 1]], body, [["obs", 2, 1]]],
+             "lst": [], "subs": [], "stats": [[0, "tally", 0], [1, "counter", 2]] if with_stats else [],
+             "streams": [], "stream_mode": "new"}
+    if rng.random() < 0.5:
+        model["streams"] = [["a", rng.randint(0, 10 ** 6)]]
+        model["prog"][1].append(["obsd", 0, "a", -2, 9])
+    init1 = ["init", 0, u * rng.randint(0, 4), u * rng.randint(3, 12), 0]
+    start2 = rng.choice([0, 0, 8 * u]) if clock != "int" else rng.choice([0, 8])
+    init2 = ["init", start2, start2 + u * rng.randint(0, 30), start2 + u * rng.randint(900, 1600), 0, "fromend"]
+    cmds = [init1, ["start"], init2]
+    if rng.random() < 0.7:
+        cmds.append(["start", "fromend"])
+    else:
+        cmds += [["runupto", start2 + u * 50], ["start"]]
+    return {"clock": clock, "strategy": "log", "models": [model], "cmds": cmds, "twin_from": 2, "hist_kind": "fromend"}
+
+
 def gen_case(rng: random.Random, i: int) -> dict:
     clock = S.CLOCKS[i % len(S.CLOCKS)]
     u = S.unit_of(clock)
@@ -153,6 +192,11 @@ def gen_case(rng: random.Random, i: int) -> dict:
         kind = "bounded"
     if kind == "asap" and i % 3 != 0:          # slow subscribers cost ~1 s wall each
         kind = "ended"
+    if kind == "fromend":
+        if i % 5 != 0:                         # initialize on the run thread costs 1 s wall each
+            kind = "ended"
+        else:
+            return gen_fromend_case(rng, clock, i)
     stochastic = (i % 3 == 1)
     with_stats = (i % 5 != 0)
     strategy = "pause" if kind in ("fault", "stop") or rng.random() < 0.5 else rng.choice(["log", "warn"])
@@ -245,7 +289,7 @@ def segment(obs, j_mark):
 
 def is_det(case):
     for m in case["models"]:
-        if m.get("streams") or m.get("lst") or m.get("subs") or m.get("pre"):
+        if m.get("streams") or m.get("lst") or m.get("subs") or m.get("pre") or m.get("simlst"):
             return False
         for body in m["prog"]:
             for a in body:
@@ -414,6 +458,8 @@ def coq_repr(case, obs):
     why = S.representable(obs)
     if why:
         return why
+    if obs.get("racy_snaps"):
+        return "snapshot taken while a run thread was still active"
     if not isinstance(obs.get("reported"), (list, type(None))):
         return "reported: " + str(obs["reported"])
     for m in case["models"]:
@@ -701,6 +747,8 @@ def y_repr(case, obs):
         return "stop_at"
     if obs.get("racy_snaps"):
         return "snapshot taken while the run thread was winding down"
+    if any(m.get("simlst") for m in case["models"]):
+        return "components listening to the simulator"
     if any(m.get("pre") for m in case["models"][1:]):
         return "pre-built events of a second model"
     if not isinstance(obs.get("reported"), (list, type(None))):
@@ -820,7 +868,8 @@ def shrink(case, pred, budget=60):
 RULE = ("generated (history, new replication) pairs on int / float / Duration clocks: history kinds never started, stepped k "
         "times, bounded run, ended, paused by a handler fault (WARN_AND_PAUSE), paused by stop() from a handler, "
         "end_replication, cleanup, another model's replication in between, several replications in sequence, re-initialisation "
-        "at the instant is_starting_or_running() turns False while a slow subscriber is still being notified of STOP / END_REPLICATION; one or two "
+        "at the instant is_starting_or_running() turns False while a slow subscriber is still being notified of STOP / END_REPLICATION, "
+        "initialize (and start) of a long next replication issued from inside the END_REPLICATION notification of the previous one; one or two "
         "model programs taking turns; models with / without SimCounter, SimTally, SimPersistent built in construct_model "
         "(also two statistics on one data stream) and with / without seeded MersenneTwister streams re-created or re-seeded in "
         "construct_model whose draws set delays and observed values; the new replication has its own start / warm-up / end "
